@@ -133,6 +133,13 @@ class _Project:
         r = self.rng
         nfiles = r.randrange(2, 5)
         names = [f"{r.choice(['mod', 'pkg_a/mod', 'pkg_b/unit'])}_{i}{self.ext}" for i in range(nfiles)]
+        if r.random() < 0.4:
+            # files with the SAME base name in different directories (helpers.py, index.ts, __init__.py ...): they are
+            # different files -- a place in one of them is a place of its own
+            base = r.choice(["helpers", "utils", "index", "__init__"])
+            dirs = r.sample(["pkg_a", "pkg_b", "pkg_a/sub", "lib"], min(nfiles, r.choice([2, 2, 3])))
+            for i, dname in enumerate(dirs):
+                names[i] = f"{dname}/{base}{self.ext}"
         runs = []
         for rid in range(r.randrange(1, 3)):
             periodic = r.random() < 0.25
@@ -145,7 +152,7 @@ class _Project:
                 run = [_stmt(self.lang, r, self.fresh()) for _ in range(length)]
             k = r.choice([1, 2, 2, 3])
             k = min(k, nfiles)
-            runs.append((rid, run, periodic, r.sample(names, k)))
+            runs.append((rid, run, periodic, names[:k] if r.random() < 0.5 else r.sample(names, k)))
         for name in names:
             lines = []
             self.header(lines)
